@@ -146,6 +146,11 @@ def to_model(case, obs):
 
 
 PEER_TASK = {9000: "A", 9002: "C", 9003: "D"}
+# client tasks holding an established stream to a server port: (task, port, style)
+PEER_TASKS = [("A", 9000, "write_all / read_exact"), ("C", 9002, "write_all then read"), ("D", 9003, "read"),
+              ("W", 9002, "writable().await + try_write")]
+# server tasks writing to an accepted stream whose client never reads: (log name, port, style)
+PUSH_TASKS = [("push", 9005, "write_all"), ("pushw", 9007, "writable().await + try_write")]
 
 
 def compare(case, obs, model, probes):
@@ -185,9 +190,10 @@ def compare(case, obs, model, probes):
             cobjs = [d[1:4] for d in before["hosts"][1]["objs"] if d[0] == "stream"]
             for m in msgs:
                 # m = [kind, from, lport, rhost, rport]; the client's end of that stream must be alive
-                if (m[0] in (1, 2) and m[2] in PEER_TASK and [m[4], 0, m[2]] in cobjs
-                        and task_lport(obs, PEER_TASK[m[2]], cinc) == m[4]):
-                    want.setdefault(PEER_TASK[m[2]], []).append("fin" if m[0] == 1 else "rst")
+                if m[0] in (1, 2) and [m[4], 0, m[2]] in cobjs:
+                    for (tk, port, _) in PEER_TASKS:
+                        if port == m[2] and task_lport(obs, tk, cinc) == m[4]:
+                            want.setdefault(tk, []).append("fin" if m[0] == 1 else "rst")
             for task, kinds in want.items():
                 e = peer_end(obs, task, cinc)
                 if e is None:
@@ -196,6 +202,8 @@ def compare(case, obs, model, probes):
                     continue      # ended before the call for another reason
                 # a writer sees the reset as BrokenPipe (the socket entry is gone), a reader as ConnectionReset
                 got = "rst" if e[0] in ("ConnectionReset", "BrokenPipe") else ("fin" if e[0] in ("eof", "UnexpectedEof") else e[0])
+                if task == "W" and got == "rst":
+                    continue      # a pure writer cannot see a FIN: its next segment is answered with a RST by the dead host
                 if kinds[0] != got:
                     return "event %d (%s n0): client task %s saw %s, model's first message for its stream is %s" % (k, name, task, e[0], kinds[0])
     return None
